@@ -282,7 +282,7 @@ impl Prop for C06 {
     const WATCHDOG_S: u64 = 20;
     const MAX_SHRINK_ITERS: u32 = 100;
     fn random_cases(tier: Tier) -> usize {
-        tier.pick(4_000, 40_000)
+        tier.pick(8_000, 40_000)
     }
     fn gen(ch: &mut Ch, _tier: Tier) -> PlanCase {
         let degenerate = ch.prob(0.1);
